@@ -19,10 +19,7 @@ NOT_DECIDED = {
             "strings; index labels are not part of the table model, so 'independent of index labels and row order' holds by construction of the "
             "model (positional) and is additionally exercised by the thorough tier's concrete runs with non-default / duplicated indices",
             "a TCR table lacking a column the metric needs raises pandas' KeyError (outside the stated property; excluded by precondition)"],
-    "C12": ["find_neighbor_pairs: its loop removes each processed sequence from the reference set while appending pairs (state-carrying loop "
-            "over sorted(set(seqs)); sorted()'s order is not modelled): contract NOT discharged, run as a bounded stand-in over an enumerated "
-            "universe of string sets (listed under bounded_standins)",
-            "_isdist3_hamming: discharged by the thorough tier only (about 15 min of path enumeration); trusted + bounded stand-in in the quick tier",
+    "C12": [            "_isdist3_hamming: discharged by the thorough tier only (about 15 min of path enumeration); trusted + bounded stand-in in the quick tier",
             "that the index forms ('k substitutions at k strictly increasing positions by different letters') are Hamming distance exactly k is the "
             "Lean lemma file HamIndexForms (k = 1, 2, 3); that the one-edit index form is Levenshtein distance exactly 1 is L-n1 / L-step (Lean); the "
             "SMT clauses and the Lean statements are related by hand transcription",
